@@ -119,6 +119,9 @@ def to_smt2(assertions, consts, logic="QF_AUFBV") -> str:
     for a in assertions:
         s.add(a)
     text = s.to_smt2()
+    # z3-internal "divisor known non-zero" operators are not SMT-LIB; same meaning as the plain ones there
+    for op in ("bvudiv", "bvurem", "bvsdiv", "bvsrem", "bvsmod"):
+        text = text.replace(f"({op}_i ", f"({op} ")
     scal = [c for c in consts if z3.is_bv(c) or z3.is_bool(c)]
     head = f"(set-option :produce-models true)\n(set-logic {logic})\n"
     tail = ""
